@@ -242,8 +242,15 @@ class Ctx:
         e = dict(os.environ, GOMEMLIMIT="8GiB", TMPDIR=tmp)
         if env:
             e.update(env)
-        p = subprocess.run([exe] + args, input=inp, stdout=subprocess.PIPE, stderr=subprocess.PIPE, timeout=timeout, env=e)
-        return p.returncode, p.stdout, p.stderr.decode("utf-8", "replace")
+        # stderr goes to a file and only its tail is kept: the code under test logs every aux field it reads,
+        # and a mutated file can make one such log line hundreds of megabytes long
+        import tempfile
+        with tempfile.TemporaryFile(dir=tmp) as ef:
+            p = subprocess.run([exe] + args, input=inp, stdout=subprocess.PIPE, stderr=ef, timeout=timeout, env=e)
+            size = ef.seek(0, 2)
+            ef.seek(max(0, size - 65536))
+            err = ef.read().decode("utf-8", "replace")
+        return p.returncode, p.stdout, err
 
     def driver(self, args, inp, timeout=3600):
         exe = os.path.join(LEAN, ".lake", "build", "bin", "rsdriver")
